@@ -102,10 +102,10 @@ func NewServer(cfg *config.Config, tail *Tail, stop string) (*server.Server, fun
 
 // Sink is a plain (non-strict) transport double: ServeMsg's entry.
 type Sink struct {
-	Remote net.Addr
+	Remote    net.Addr
 	ProtoName string // optional override ("doh", "doq", "tcp-tls"...)
-	Writes [][]byte
-	Msgs   []*dns.Msg
+	Writes    [][]byte
+	Msgs      []*dns.Msg
 }
 
 func (s *Sink) LocalAddr() net.Addr {
